@@ -455,7 +455,15 @@ struct SpanProvider : Pipeline
       else
         procs.emplace_back(new sdktrace::BatchSpanProcessor(std::move(e), span_opts(*w.c)));
     }
+    std::unique_ptr<sdktrace::SpanProcessor> later;
+    if (w.c->knob("add_later", 0) && procs.size() > 1)
+    {
+      later = std::move(procs.back());
+      procs.pop_back();
+    }
     prov.reset(new sdktrace::TracerProvider(std::move(procs), Resource::GetEmpty()));
+    if (later)
+      prov->AddProcessor(std::move(later));
     tracer = prov->GetTracer("vsim");
   }
   void produce(int p, int k) override
@@ -486,7 +494,15 @@ struct LogProvider : Pipeline
       else
         procs.emplace_back(new sdklogs::BatchLogRecordProcessor(std::move(e), log_opts(*w.c)));
     }
+    std::unique_ptr<sdklogs::LogRecordProcessor> later;
+    if (w.c->knob("add_later", 0) && procs.size() > 1)
+    {
+      later = std::move(procs.back());
+      procs.pop_back();
+    }
     prov.reset(new sdklogs::LoggerProvider(std::move(procs), Resource::GetEmpty()));
+    if (later)
+      prov->AddProcessor(std::move(later));
     logger = prov->GetLogger("vsim", "vsim");
   }
   void produce(int p, int k) override
@@ -1225,6 +1241,7 @@ void generate(const std::string &prop, Rng &wl, Rng &fl, Case &c)
       layout = (int)wl.below(1 << nproc);
     c.set("nproc", nproc);
     c.set("layout", layout);
+    c.set("add_later", nproc > 1 && wl.chance(0.4));
   }
   if (metrics)
   {
